@@ -319,7 +319,7 @@ Proof.
   - destruct (a_trailing a) as [[n t]|]; cbn [render_trailing]; [|apply clean_spaces].
     apply Bool.andb_true_iff in Htr. destruct Htr as [Ht _].
     rewrite forallb_app, clean_spaces. cbn [forallb andb]. change (clean 58) with true. cbn [andb].
-    eapply forallb_impl; [|exact Ht]. intros x Hx. unfold trailing_byte, is_nul_cr_lf in Hx. unfold clean, is_crlf. lia.
+    eapply forallb_impl; [|exact Ht]. exact trailing_byte_clean.
 Qed.
 
 Theorem parse_ast_complete a : wf_ast a -> parse_ast (render a) = Some a.
@@ -354,7 +354,7 @@ Proof.
              | Some (ms0, tr0, tl0) => Some (mkAst tg sr cmd0 ms0 tr0 tl0 eol)
              | None => None end) = Some (mkAst tg sr cmd ms tr tl eol)).
   { intros tg sr. rewrite lcut_cut. unfold REST.
-    pose proof (parse_params_complete ms tr tl (S (length P)) Hmok Htl ltac:(fold P; lia)) as HPP. fold P in HPP.
+    pose proof (parse_params_complete ms tr tl (S (length P)) Hmok Htl (Nat.lt_succ_diag_r _)) as HPP. fold P in HPP.
     destruct (params_shape ms tr tl) as [HP|[after HP]]; fold P in HP.
     - rewrite HP in *. rewrite app_nil_r. rewrite cut_notin by exact Hc32. rewrite HPP. reflexivity.
     - rewrite HP in *. rewrite cut_app by exact Hc32. rewrite HPP. reflexivity. }
